@@ -32,7 +32,17 @@ pub fn install_panic_hook() {
 }
 
 /// Runs `f`, turning an unwind into `Err(message @ file:line)`.
+thread_local! {
+    /// set by `take_exec` for a case that terminated the worker in an earlier attempt: the next guarded
+    /// execution is not run (the supervisor has already reported the death); the search goes on without a successor
+    static SKIP_NEXT: std::cell::Cell<bool> = std::cell::Cell::new(false);
+}
+pub const KILLER_SKIPPED: &str = "KILLER-SKIPPED: this case terminated the worker in an earlier attempt";
+
 pub fn guarded<T>(f: impl FnOnce() -> T) -> Result<T, String> {
+    if SKIP_NEXT.with(|s| s.replace(false)) {
+        return Err(KILLER_SKIPPED.to_string());
+    }
     LAST_PANIC.with(|p| *p.borrow_mut() = None);
     match catch_unwind(AssertUnwindSafe(f)) {
         Ok(v) => Ok(v),
@@ -305,6 +315,8 @@ pub struct Ctx {
     pub prefix: bool,
     /// resume after an aborted case: ids below this are skipped
     pub from: u64,
+    /// cases that terminated the worker in earlier attempts of this shard: never executed again
+    pub skip: Vec<u64>,
     pub next_id: u64,
     pub cases: u64,
     pub states: u64,
@@ -337,6 +349,7 @@ impl Ctx {
             nshards: 1,
             only: None,
             prefix: false,
+            skip: Vec::new(),
             from: 0,
             next_id: 0,
             cases: 0,
@@ -364,6 +377,33 @@ impl Ctx {
     pub fn take(&mut self) -> Option<u64> {
         let id = self.next_id;
         self.next_id += 1;
+        if self.skip.contains(&id) {
+            return None;
+        }
+        let r = self.take_inner(id);
+        if r.is_some() {
+            self.mark_case(id);
+        }
+        r
+    }
+
+    /// Every case start is written to the breadcrumb file (one positional write) and time-stamped for the
+    /// watchdog, whether or not the family supplies a description of its own afterwards (`crumb`).
+    pub fn mark_case(&mut self, id: u64) {
+        CASE_STARTED_MS.store(now_ms(), std::sync::atomic::Ordering::Relaxed);
+        if let Some(f) = self.breadcrumb.as_mut() {
+            use std::os::unix::fs::FileExt;
+            let mut line = format!("{} {}", id, self.family);
+            line.truncate(120);
+            while line.len() < 120 {
+                line.push(' ');
+            }
+            line.push('\n');
+            let _ = f.write_at(line.as_bytes(), 0);
+        }
+    }
+
+    fn take_inner(&mut self, id: u64) -> Option<u64> {
         match self.only {
             Some(o) => {
                 if o == id || (self.prefix && id < o && (id as usize) % self.nshards == self.shard) {
@@ -388,6 +428,11 @@ impl Ctx {
     pub fn take_exec(&mut self) -> (u64, bool) {
         let id = self.next_id;
         self.next_id += 1;
+        if self.skip.contains(&id) {
+            SKIP_NEXT.with(|s| s.set(true));
+        } else {
+            self.mark_case(id);
+        }
         let rec = match self.only {
             Some(o) => o == id,
             None => true,
@@ -424,8 +469,14 @@ impl Ctx {
     }
 
     pub fn record(&mut self, id: u64, outcome_key: &str, verdict: Verdict, descr: impl FnOnce() -> String) {
+        CASE_STARTED_MS.store(0, std::sync::atomic::Ordering::Relaxed);
         if self.prefix && self.only.map(|o| o != id).unwrap_or(false) {
             return; // a case executed only to restore the history of the replayed one
+        }
+        if let Verdict::Fail { detail, class, .. } = &verdict {
+            if detail.contains("KILLER-SKIPPED") || class.contains("KILLER-SKIPPED") {
+                return; // reported by the supervisor as a worker death already
+            }
         }
         self.cases += 1;
         self.traces += 1;
